@@ -40,7 +40,7 @@ const (
 // runGroup injects one fault into a running task and observes how the whole task reacts:
 // does Run return (with what), or is the interface re-dialled, how long does it take, and is
 // the old connection still used afterwards.
-func runGroup(t *testing.T, out *vfh.Out, monitor, unicastOnly bool, kind int, tf time.Duration) {
+func vfRunGroup(t *testing.T, out *vfh.Out, monitor, unicastOnly bool, kind int, tf time.Duration) {
 	out.Pending(fmt.Sprintf("runGroup monitor=%v unicastOnly=%v fault=%d at=%v", monitor, unicastOnly, kind, tf))
 	synctest.Test(t, func(t *testing.T) {
 		st := &vfState{forwarding: true}
@@ -57,7 +57,7 @@ func runGroup(t *testing.T, out *vfh.Out, monitor, unicastOnly bool, kind int, t
 		}
 		d := system.NewDialer("vf0", st, mode, nil)
 		d.DialFunc = func() (*system.DialContext, error) {
-			c := newVfConn()
+			c := vfNewVfConn()
 			c.t0 = start
 			if len(conns) == 0 && (kind == fInitWriteSyscall || kind == fInitWriteErr) {
 				c.writeErr = func(k int, _ netip.Addr) error {
@@ -118,7 +118,7 @@ func runGroup(t *testing.T, out *vfh.Out, monitor, unicastOnly bool, kind int, t
 				return nil
 			}
 			c0.mu.Unlock()
-			c0.deliver(vfRead{m: advMessage(advEvent{kind: 0, host: 1}), hop: 255, host: vfHosts[1].WithZone("vf0")})
+			c0.deliver(vfRead{m: vfAdvMessage(vfAdvEvent{kind: 0, host: 1}), hop: 255, host: vfHosts[1].WithZone("vf0")})
 		case fLinkChange:
 			watchC <- netstate.LinkDown
 		case fCancel:
@@ -133,7 +133,7 @@ func runGroup(t *testing.T, out *vfh.Out, monitor, unicastOnly bool, kind int, t
 				st.err, st.errOnce = &fs.PathError{Op: "open", Path: "/proc/sys/net/ipv6/conf/vf0/forwarding", Err: syscall.ENOENT}, true
 			}
 			st.mu.Unlock()
-			c0.deliver(vfRead{m: advMessage(advEvent{kind: 1}), hop: 255, host: vfHosts[1].WithZone("vf0")})
+			c0.deliver(vfRead{m: vfAdvMessage(vfAdvEvent{kind: 1}), hop: 255, host: vfHosts[1].WithZone("vf0")})
 		}
 		synctest.Wait()
 
@@ -207,19 +207,19 @@ func verifC10Group(t *testing.T, r *vfh.Rand, out *vfh.Out) {
 				continue // a monitor transmits nothing and its handler cannot fail
 			}
 			for _, tf := range instants {
-				runGroup(t, out, mon, false, kind, tf)
+				vfRunGroup(t, out, mon, false, kind, tf)
 				if !mon {
-					runGroup(t, out, false, true, kind, tf)
+					vfRunGroup(t, out, false, true, kind, tf)
 				}
 			}
 		}
 	}
 	for _, kind := range []int{fInitWriteSyscall, fInitWriteErr} {
-		runGroup(t, out, false, false, kind, 1) // (a unicast-only advertiser makes no initial transmission)
+		vfRunGroup(t, out, false, false, kind, 1) // (a unicast-only advertiser makes no initial transmission)
 	}
 	for _, tf := range instants {
-		runGroup(t, out, false, false, fHandlerPathErr, tf)
-		runGroup(t, out, false, true, fHandlerPathErr, tf)
+		vfRunGroup(t, out, false, false, fHandlerPathErr, tf)
+		vfRunGroup(t, out, false, true, fHandlerPathErr, tf)
 	}
 	n := vfh.N(200, 5000)
 	for i := 0; i < n; i++ {
@@ -228,7 +228,7 @@ func verifC10Group(t *testing.T, r *vfh.Rand, out *vfh.Out) {
 		if mon && (kind == fWriteErr || kind == fWriteSyscall || kind == fHandlerErr) {
 			kind = fReadErr
 		}
-		runGroup(t, out, mon, !mon && r.Chance(1, 4), kind, time.Duration(r.Range(1, int64(700*time.Second)))|1)
+		vfRunGroup(t, out, mon, !mon && r.Chance(1, 4), kind, time.Duration(r.Range(1, int64(700*time.Second)))|1)
 	}
 }
 
@@ -236,7 +236,7 @@ func verifC10Group(t *testing.T, r *vfh.Rand, out *vfh.Out) {
 // stops consuming requests although the task's context is not cancelled yet, and a burst of n
 // solicitations arrives meanwhile. The task must still be torn down once the transmission in
 // flight has completed (F-17: with a bare `ipC <- ip` the listener blocks in its 17th send).
-func runGroupQ(t *testing.T, out *vfh.Out, unicastOnly, sys bool, tf, lat time.Duration, n int) {
+func vfRunGroupQ(t *testing.T, out *vfh.Out, unicastOnly, sys bool, tf, lat time.Duration, n int) {
 	out.Pending(fmt.Sprintf("runGroupQ unicastOnly=%v sys=%v at=%v inflight=%v burst=%d", unicastOnly, sys, tf, lat, n))
 	synctest.Test(t, func(t *testing.T) {
 		st := &vfState{forwarding: true}
@@ -249,7 +249,7 @@ func runGroupQ(t *testing.T, out *vfh.Out, unicastOnly, sys bool, tf, lat time.D
 		start := time.Now()
 		d := system.NewDialer("vf0", st, system.Advertise, nil)
 		d.DialFunc = func() (*system.DialContext, error) {
-			c := newVfConn()
+			c := vfNewVfConn()
 			c.t0 = start
 			conns = append(conns, c)
 			dialAt = append(dialAt, time.Since(start))
@@ -290,7 +290,7 @@ func runGroupQ(t *testing.T, out *vfh.Out, unicastOnly, sys bool, tf, lat time.D
 		}
 		c0.mu.Unlock()
 		rs := func(h netip.Addr) bool {
-			return c0.deliver(vfRead{m: advMessage(advEvent{kind: 0, host: 1}), hop: 255, host: h})
+			return c0.deliver(vfRead{m: vfAdvMessage(vfAdvEvent{kind: 0, host: 1}), hop: 255, host: h})
 		}
 		rs(hostA) // answered within 500 ms; its transmission takes lat
 		time.Sleep(600 * time.Millisecond)
@@ -384,13 +384,13 @@ func verifC10GroupQ(t *testing.T, r *vfh.Rand, out *vfh.Out) {
 	for _, n := range []int{0, 1, 15, 16, 17, 18, 40} {
 		for _, sys := range []bool{false, true} {
 			for _, uo := range []bool{false, true} {
-				runGroupQ(t, out, uo, sys, 700*time.Millisecond+1, 2*time.Second, n)
+				vfRunGroupQ(t, out, uo, sys, 700*time.Millisecond+1, 2*time.Second, n)
 			}
 		}
 	}
 	k := vfh.N(12, 300)
 	for i := 0; i < k; i++ {
-		runGroupQ(t, out, r.Chance(1, 4), r.Bool(), time.Duration(r.Range(1, int64(30*time.Second)))|1,
+		vfRunGroupQ(t, out, r.Chance(1, 4), r.Bool(), time.Duration(r.Range(1, int64(30*time.Second)))|1,
 			time.Duration(r.Range(int64(2*time.Second), int64(20*time.Second))), r.Intn(60))
 	}
 }
